@@ -13,7 +13,10 @@ SPEC = {
         ('K-next(delayed inherited)', 'next', '^fields:delayed'),
         ("_create_start_nodes(an expansion round creates nothing and keeps the lattice)", 'start_nodes', r'^start:expansion'),
         ("match(extension: prefix test, re-activation of the last old column, missing columns created, every observation re-visited, trace replaced, round counter incremented once)", 'match', r'^(extend:|expand:|init:|loop:(runs-over|new-column|no-pruning)|BaseMatcher.match::loop)'),
-        ("LatticeColumn.set_delayed(re-activation gives EVERY entry of the column the new round, whatever its old one: nested foreach)", 'set_delayed', '^reactivate:')],
+        ("LatticeColumn.set_delayed(re-activation gives EVERY entry of the column the new round, whatever its old one: nested foreach)", 'set_delayed', '^reactivate:'),
+        ("an extension round is a round like any other: the layers of the non-emitting search and the next column are pruned with the CURRENT round number (the second and later extensions have round numbers above 1)", 'ne_levels', r'^levels:(this-layer|next-column)'),
+        ("match(with a width the new column is re-pruned with the current round number at the end of every step)", 'match', r'^loop:(new-column|no-pruning)'),
+        ("_match_states(expanded = live entries due in this round)", 'match_states', r'^select:')],
     'bounded': [
         ('incremental-vs-one-shot', suites.case_C08, 1500, 200000, RULE + '; ' + 'non-trivial = first cut inside the matched prefix; 1-2 cuts', '')],
 }
